@@ -107,7 +107,7 @@ def from_seeds(prop, clean_src, rounds=None):
         if not m:
             continue
         n = int(m.group(1))
-        rnd = 1 if n <= 3 else 2 if n <= 7 else 3 if n <= 11 else 4
+        rnd = 1 if n <= 3 else 2 if n <= 7 else 3 if n <= 11 else 4 if n <= 15 else 5 if n <= 17 else 6
         if rounds and rnd not in rounds:
             continue
         d = tempfile.mkdtemp(prefix="rel_", dir="/dev/shm")
